@@ -62,7 +62,7 @@ def build(release=False):
     if p.returncode != 0:
         sys.stdout.write(p.stderr[-4000:])
         harness_error("xq/xe do not build from /repo's working tree")
-    p = subprocess.run(["cargo", "build", "--offline", "--quiet", "--release"], cwd=os.path.join(ROOT, "domsim"), env=ENV, stdout=subprocess.PIPE, stderr=subprocess.PIPE, text=True)
+    p = subprocess.run(["cargo", "build", "--offline", "--quiet", "--release", "--target-dir", os.path.join(BUILD, "domsim")], cwd=os.path.join(ROOT, "domsim"), env=ENV, stdout=subprocess.PIPE, stderr=subprocess.PIPE, text=True)
     if p.returncode != 0:
         sys.stdout.write(p.stderr[-4000:])
         harness_error("domsim does not build")
@@ -667,4 +667,13 @@ def main():
 
 
 if __name__ == "__main__":
-    main()
+    try:
+        main()
+    except SystemExit:
+        raise
+    except BaseException as e:  # a bug in the harness is never a verdict about the property
+        import traceback
+
+        traceback.print_exc()
+        print("HARNESS-ERROR: %s: %s" % (type(e).__name__, e))
+        sys.exit(2)
